@@ -24,6 +24,7 @@ type goHooks struct {
 	onEdge   func(g *goProg, a *AbsState, from, to *ssa.BasicBlock)
 	onCall   func(g *goProg, a *AbsState, call ssa.CallInstruction)
 	onInstr  func(g *goProg, a *AbsState, in ssa.Instruction)
+	noInline bool // do not analyse callees in place (their results and effects are unknown)
 }
 
 type goProg struct {
@@ -35,6 +36,14 @@ type goProg struct {
 	recovers bool            // panics are recovered into an error result
 	recoverDefer *ssa.Defer  // the defer statement that installs the recovering handler
 	pre      func(g *goProg, a *AbsState) // extra preconditions on the parameters
+	// inlined instance of a module-local callee (nil parent for the analysed function)
+	ctx       string
+	parent    *goProg
+	callSite  *ssa.Call
+	paramRoot map[string]string
+	depth     int
+	start     *AbsState // state at the call, parameters bound
+	rets      []*AbsState
 	assertRoots map[string]bool // roots whose index/slice operations are obligations (no-panic); others are assumptions
 	lenSym   map[string]Lin  // root -> original length symbol of parameter slices
 	capSym   map[string]Lin
@@ -162,6 +171,11 @@ func vkey(v ssa.Value) string {
 	return v.Name()
 }
 
+// k: state key of an SSA value in this (possibly inlined) function instance.
+func (g *goProg) k(v ssa.Value) string { return g.ctx + vkey(v) }
+
+func (g *goProg) cellKey(al *ssa.Alloc) string { return "cell:" + g.ctx + al.Name() }
+
 // rootOf: which underlying buffer a slice value belongs to (syntactic).
 func (g *goProg) rootOf(v ssa.Value) string {
 	seen := map[ssa.Value]bool{}
@@ -173,6 +187,9 @@ func (g *goProg) rootOf(v ssa.Value) string {
 		seen[v] = true
 		switch x := v.(type) {
 		case *ssa.Parameter:
+			if g.parent != nil {
+				return g.paramRoot[x.Name()]
+			}
 			return x.Name()
 		case *ssa.Slice:
 			return rec(x.X)
@@ -217,10 +234,13 @@ func (g *goProg) rootOf(v ssa.Value) string {
 }
 
 func (g *goProg) initial() *AbsState {
+	if g.parent != nil {
+		return g.start.clone()
+	}
 	a := newAbs()
 	lim := lenLimit()
 	for _, p := range g.fn.Params {
-		k := vkey(p)
+		k := g.k(p)
 		switch {
 		case isSliceType(p.Type()):
 			L := g.tab.get("len(" + p.Name() + ")")
@@ -271,12 +291,12 @@ func (g *goProg) val(a *AbsState, v ssa.Value) Lin {
 		}
 		return linI(0)
 	}
-	if l, ok := a.vals[vkey(v)]; ok {
+	if l, ok := a.vals[g.k(v)]; ok {
 		return l
 	}
 	// unknown (defined on a path not taken into account, e.g. dropped at a merge): fresh
 	l := g.havocT(a, "unk_"+v.Name(), v.Type())
-	a.vals[vkey(v)] = l
+	a.vals[g.k(v)] = l
 	return l
 }
 
@@ -289,7 +309,7 @@ type sliceAbs struct {
 }
 
 func (g *goProg) sliceOf(a *AbsState, v ssa.Value) sliceAbs {
-	k := vkey(v)
+	k := g.k(v)
 	if l, ok := a.vals[k+".len"]; ok {
 		return sliceAbs{l, a.vals[k+".cap"], a.vals[k+".off"], g.rootOf(v), true}
 	}
@@ -305,7 +325,7 @@ func (g *goProg) sliceOf(a *AbsState, v ssa.Value) sliceAbs {
 }
 
 func (g *goProg) setSlice(a *AbsState, v ssa.Value, s sliceAbs) {
-	k := vkey(v)
+	k := g.k(v)
 	a.vals[k+".len"], a.vals[k+".cap"], a.vals[k+".off"] = s.len, s.cap, s.off
 }
 
@@ -336,6 +356,9 @@ func (g *goProg) need(a *AbsState, in ssa.Instruction, root, what string, cond L
 
 // covered: the recovering defer statement is executed on every path to in.
 func (g *goProg) covered(in ssa.Instruction) bool {
+	if g.parent != nil {
+		return g.parent.covered(g.callSite)
+	}
 	d := g.recoverDefer
 	if d == nil {
 		return false
@@ -353,7 +376,7 @@ func (g *goProg) siteKey(in ssa.Instruction, what string) string {
 // arith: exact result when it fits the type, otherwise split (unsigned
 // subtraction) or havoc.
 func (g *goProg) arith(a *AbsState, v ssa.Value, m Lin) []*AbsState {
-	k := vkey(v)
+	k := g.k(v)
 	n, u, ok := isIntType(v.Type())
 	if !ok {
 		a.vals[k] = m
@@ -396,7 +419,7 @@ func (g *goProg) arith(a *AbsState, v ssa.Value, m Lin) []*AbsState {
 }
 
 func (g *goProg) convert(a *AbsState, v *ssa.Convert) []*AbsState {
-	k := vkey(v)
+	k := g.k(v)
 	tn, tu, ok := isIntType(v.Type())
 	sn, _, sok := isIntType(v.X.Type())
 	if !ok || !sok {
@@ -476,7 +499,7 @@ func (g *goProg) assumeGEq(a *AbsState, l Lin, K Q) {
 }
 
 func (g *goProg) binop(a *AbsState, v *ssa.BinOp) []*AbsState {
-	k := vkey(v)
+	k := g.k(v)
 	if _, _, ok := isIntType(v.Type()); !ok {
 		return []*AbsState{a} // comparisons are evaluated at the branch
 	}
@@ -611,7 +634,7 @@ func (g *goProg) step(a *AbsState, in ssa.Instruction, check bool) []*AbsState {
 		return g.convert(a, x)
 	case *ssa.ChangeType:
 		if _, _, ok := isIntType(x.Type()); ok {
-			a.vals[vkey(x)] = g.val(a, x.X)
+			a.vals[g.k(x)] = g.val(a, x.X)
 		} else if isSliceType(x.Type()) {
 			g.setSlice(a, x, g.sliceOf(a, x.X))
 		}
@@ -619,18 +642,46 @@ func (g *goProg) step(a *AbsState, in ssa.Instruction, check bool) []*AbsState {
 		switch x.Op {
 		case token.MUL:
 			if al, ok := x.X.(*ssa.Alloc); ok {
-				ck := "cell:" + al.Name()
+				ck := g.cellKey(al)
 				if _, _, isI := isIntType(x.Type()); isI {
 					if v, has := a.vals[ck]; has {
-						a.vals[vkey(x)] = v
+						a.vals[g.k(x)] = v
 					} else {
-						a.vals[vkey(x)] = g.havocT(a, "ld_"+x.Name(), x.Type())
+						a.vals[g.k(x)] = g.havocT(a, "ld_"+x.Name(), x.Type())
 					}
 				}
 				return one
 			}
+			if fk := g.fieldCell(x.X); fk != "" {
+				// a struct field of an object of this function: loads see the last store (or the
+				// previous load) until a call that may write the field intervenes
+				switch {
+				case isSliceType(x.Type()):
+					if l, has := a.vals[fk+".len"]; has {
+						a.vals[g.k(x)+".len"], a.vals[g.k(x)+".cap"], a.vals[g.k(x)+".off"] = l, a.vals[fk+".cap"], a.vals[fk+".off"]
+					} else {
+						s := g.sliceOf(a, x)
+						a.vals[fk+".len"], a.vals[fk+".cap"], a.vals[fk+".off"] = s.len, s.cap, s.off
+						// snapshot of the field as first seen since the last call ("fld:orig:..."): lets a
+						// property relate a later value of the field to this one
+						ok := "fld:orig:" + fk[len("fld:"):]
+						a.vals[ok+".len"], a.vals[ok+".off"] = s.len, s.off
+					}
+					return one
+				default:
+					if _, _, isI := isIntType(x.Type()); isI {
+						if v, has := a.vals[fk]; has {
+							a.vals[g.k(x)] = v
+						} else {
+							v := g.havocT(a, "ld_"+x.Name(), x.Type())
+							a.vals[g.k(x)], a.vals[fk] = v, v
+						}
+						return one
+					}
+				}
+			}
 			if _, _, isI := isIntType(x.Type()); isI {
-				a.vals[vkey(x)] = g.havocT(a, "ld_"+x.Name(), x.Type())
+				a.vals[g.k(x)] = g.havocT(a, "ld_"+x.Name(), x.Type())
 			}
 		case token.SUB:
 			if _, _, isI := isIntType(x.Type()); isI {
@@ -638,27 +689,41 @@ func (g *goProg) step(a *AbsState, in ssa.Instruction, check bool) []*AbsState {
 			}
 		default:
 			if _, _, isI := isIntType(x.Type()); isI {
-				a.vals[vkey(x)] = g.havocT(a, "un_"+x.Name(), x.Type())
+				a.vals[g.k(x)] = g.havocT(a, "un_"+x.Name(), x.Type())
 			}
 		}
 	case *ssa.Alloc:
 		// local cells start at zero
 		if pt, ok := x.Type().(*types.Pointer); ok {
 			if _, _, isI := isIntType(pt.Elem()); isI {
-				a.vals["cell:"+x.Name()] = linI(0)
+				a.vals[g.cellKey(x)] = linI(0)
 			}
 		}
 	case *ssa.Store:
 		if al, ok := x.Addr.(*ssa.Alloc); ok {
 			if _, _, isI := isIntType(x.Val.Type()); isI {
-				a.vals["cell:"+al.Name()] = g.val(a, x.Val)
+				a.vals[g.cellKey(al)] = g.val(a, x.Val)
 			}
 			return one
 		}
+		if fk := g.fieldCell(x.Addr); fk != "" {
+			g.killField(a, x.Addr, fk)
+			switch {
+			case isSliceType(x.Val.Type()):
+				sv := g.sliceOf(a, x.Val)
+				a.vals[fk+".len"], a.vals[fk+".cap"], a.vals[fk+".off"] = sv.len, sv.cap, sv.off
+			default:
+				if _, _, isI := isIntType(x.Val.Type()); isI {
+					a.vals[fk] = g.val(a, x.Val)
+				}
+			}
+		} else if _, isFA := x.Addr.(*ssa.FieldAddr); isFA {
+			g.killField(a, x.Addr, "")
+		}
 		if ia, ok := x.Addr.(*ssa.IndexAddr); ok {
 			// write through an element pointer
-			if off, has := a.vals[vkey(ia)+".elt"]; has {
-				root := a.meta[vkey(ia)+".root"]
+			if off, has := a.vals[g.k(ia)+".elt"]; has {
+				root := a.meta[g.k(ia)+".root"]
 				if L, isParam := g.lenSym[root]; isParam && check {
 					g.coll.check("write", g.siteKey(in, "store-"+root), g.prog.InstrPos(in), "element store stays below len("+root+")", a.st.entailsLt(off, L), func() string {
 						_, mx := a.st.max(off.Sub(L))
@@ -676,8 +741,8 @@ func (g *goProg) step(a *AbsState, in ssa.Instruction, check bool) []*AbsState {
 			i := g.val(a, x.Index)
 			g.need(a, in, s.root, "index", i.Neg(), check)
 			g.need(a, in, s.root, "index", i.Sub(s.len).AddK(1), check)
-			a.vals[vkey(x)+".elt"] = s.off.Add(i)
-			a.meta[vkey(x)+".root"] = s.root
+			a.vals[g.k(x)+".elt"] = s.off.Add(i)
+			a.meta[g.k(x)+".root"] = s.root
 		}
 	case *ssa.Slice:
 		g.slice(a, x, check)
@@ -689,12 +754,19 @@ func (g *goProg) step(a *AbsState, in ssa.Instruction, check bool) []*AbsState {
 		if call, ok := x.Tuple.(*ssa.Call); ok {
 			_ = call
 		}
+		tk := g.k(x.Tuple) + fmt.Sprintf("#%d", x.Index)
 		if _, _, isI := isIntType(x.Type()); isI {
-			if v, has := a.vals[vkey(x.Tuple)+fmt.Sprintf("#%d", x.Index)]; has {
-				a.vals[vkey(x)] = v
+			if v, has := a.vals[tk]; has {
+				a.vals[g.k(x)] = v
 			} else {
-				a.vals[vkey(x)] = g.havocT(a, "ext_"+x.Name(), x.Type())
+				a.vals[g.k(x)] = g.havocT(a, "ext_"+x.Name(), x.Type())
 			}
+		} else if isSliceType(x.Type()) {
+			if l, has := a.vals[tk+".len"]; has {
+				a.vals[g.k(x)+".len"], a.vals[g.k(x)+".cap"], a.vals[g.k(x)+".off"] = l, a.vals[tk+".cap"], a.vals[tk+".off"]
+			}
+		} else if v, has := a.vals[tk]; has {
+			a.vals[g.k(x)] = v // boolean result of an inlined call
 		}
 	case *ssa.Field, *ssa.FieldAddr, *ssa.MakeInterface, *ssa.MakeClosure, *ssa.Defer, *ssa.RunDefers, *ssa.DebugRef, *ssa.Go, *ssa.Send, *ssa.MakeChan, *ssa.TypeAssert, *ssa.ChangeInterface:
 	case *ssa.MakeSlice:
@@ -703,7 +775,7 @@ func (g *goProg) step(a *AbsState, in ssa.Instruction, check bool) []*AbsState {
 	default:
 		if v, ok := in.(ssa.Value); ok {
 			if _, _, isI := isIntType(v.Type()); isI {
-				a.vals[vkey(v)] = g.havocT(a, "v_"+v.Name(), v.Type())
+				a.vals[g.k(v)] = g.havocT(a, "v_"+v.Name(), v.Type())
 			}
 		}
 	}
@@ -753,12 +825,12 @@ func (g *goProg) slice(a *AbsState, x *ssa.Slice, check bool) {
 	}
 	g.setSlice(a, x, sliceAbs{hi.Sub(lo), mx.Sub(lo), base.off.Add(lo), root, true})
 	if x.High == nil {
-		a.meta[vkey(x)+".open"] = "1"
+		a.meta[g.k(x)+".open"] = "1"
 	}
 }
 
 func (g *goProg) call(a *AbsState, x *ssa.Call, check bool) []*AbsState {
-	k := vkey(x)
+	k := g.k(x)
 	one := []*AbsState{a}
 	if b, ok := x.Call.Value.(*ssa.Builtin); ok {
 		switch b.Name() {
@@ -799,7 +871,7 @@ func (g *goProg) call(a *AbsState, x *ssa.Call, check bool) []*AbsState {
 					})
 				}
 				if check && g.hooks.onCopy != nil {
-					g.hooks.onCopy(g, st, x, n, d.off, d.len, s.off, s.len, d.root, s.root, a.meta[vkey(x.Call.Args[1])+".open"] == "1")
+					g.hooks.onCopy(g, st, x, n, d.off, d.len, s.off, s.len, d.root, s.root, a.meta[g.k(x.Call.Args[1])+".open"] == "1")
 				}
 				outs = append(outs, st)
 			}
@@ -884,6 +956,21 @@ func (g *goProg) call(a *AbsState, x *ssa.Call, check bool) []*AbsState {
 		a.vals[k] = g.havocR(a, f.Name(), qi(0), qPow2(bitsN).Sub(qi(1)), true)
 		return one
 	}
+	if outs, ok := g.inlineCall(a, x, f, check); ok {
+		return outs
+	}
+	if !pureCallee(f) {
+		g.killAllFields(a)
+	}
+	if check && inModule(f) {
+		for _, arg := range x.Call.Args {
+			if isSliceType(arg.Type()) && g.sliceOf(a, arg).root == "dst" {
+				g.coll.check("unanalysed", g.siteKey(x, "callee-"+f.Name()), g.prog.InstrPos(x), "a helper that receives (part of) dst is analysed together with its caller", false, func() string {
+					return "the callee " + f.Name() + " could not be inlined (recursion, defer, or size); its writes into dst are not checked"
+				})
+			}
+		}
+	}
 	// generic call: results by type
 	if tup, ok := x.Type().(*types.Tuple); ok {
 		for i := 0; i < tup.Len(); i++ {
@@ -940,6 +1027,10 @@ func (g *goProg) condRefine(a *AbsState, cond ssa.Value, val bool, blk *ssa.Basi
 		}
 	case *ssa.BinOp:
 		g.cmpRefine(a, c, val)
+	case *ssa.Call, *ssa.Extract:
+		if v, has := a.vals[g.k(cond)]; has && v.isConst() {
+			return (v.k.Sign() != 0) == val
+		}
 	case *ssa.Phi:
 		if c.Block() == blk && a.from >= 0 {
 			for i, p := range blk.Preds {
@@ -949,7 +1040,7 @@ func (g *goProg) condRefine(a *AbsState, cond ssa.Value, val bool, blk *ssa.Basi
 			}
 		}
 		// a boolean phi bound earlier: use the recorded edge choice if any
-		if pick, ok := a.meta["bphi:"+c.Name()]; ok {
+		if pick, ok := a.meta["bphi:"+g.ctx+c.Name()]; ok {
 			var idx int
 			fmt.Sscanf(pick, "%d", &idx)
 			if idx < len(c.Edges) {
@@ -996,12 +1087,12 @@ func (g *goProg) transfer(b int, in *AbsState, check bool) [][]*AbsState {
 			switch {
 			case isSliceType(ph.Type()):
 				s := g.sliceOf(a, e)
-				newVals[vkey(ph)+".len"], newVals[vkey(ph)+".cap"], newVals[vkey(ph)+".off"] = s.len, s.cap, s.off
+				newVals[g.k(ph)+".len"], newVals[g.k(ph)+".cap"], newVals[g.k(ph)+".off"] = s.len, s.cap, s.off
 			default:
 				if _, _, isI := isIntType(ph.Type()); isI {
-					newVals[vkey(ph)] = g.val(a, e)
+					newVals[g.k(ph)] = g.val(a, e)
 				} else if bt, isB := ph.Type().Underlying().(*types.Basic); isB && bt.Kind() == types.Bool {
-					a.meta["bphi:"+ph.Name()] = fmt.Sprint(pi)
+					a.meta["bphi:"+g.ctx+ph.Name()] = fmt.Sprint(pi)
 				}
 			}
 		}
@@ -1048,7 +1139,7 @@ func (g *goProg) computeLive() {
 		case *ssa.Const, *ssa.Function, *ssa.Builtin, *ssa.Global:
 			return nil
 		}
-		k := vkey(v)
+		k := g.k(v)
 		if isSliceType(v.Type()) {
 			return []string{k + ".len", k + ".cap", k + ".off"}
 		}
@@ -1077,8 +1168,8 @@ func (g *goProg) computeLive() {
 					}
 				}
 				if al, isAl := (*op).(*ssa.Alloc); isAl {
-					if !d["cell:"+al.Name()] {
-						u["cell:"+al.Name()] = true
+					if !d[g.cellKey(al)] {
+						u[g.cellKey(al)] = true
 					}
 				}
 			}
@@ -1161,6 +1252,14 @@ func analyseGoFunc(p *Program, fn *ssa.Function, name string, assertRoots []stri
 	for _, r := range assertRoots {
 		g.assertRoots[r] = true
 	}
+	g.prepare()
+	res, err := g.run()
+	return res, g, err
+}
+
+// prepare computes instruction ordinals, finds the recovering defer and the liveness sets.
+func (g *goProg) prepare() {
+	fn := g.fn
 	// ordinals by source position within the function, per instruction kind
 	var all []ssa.Instruction
 	allInstrs(fn, func(in ssa.Instruction) { all = append(all, in) })
@@ -1195,6 +1294,11 @@ func analyseGoFunc(p *Program, fn *ssa.Function, name string, assertRoots []stri
 		}
 	})
 	g.computeLive()
+}
+
+// run executes the fixpoint computation from g.initial().
+func (g *goProg) run() (*bndResult, error) {
+	fn, tab, coll := g.fn, g.tab, g.coll
 	hc := &hullCtx{tab: tab, heads: map[int]*tmplHead{}}
 	init := g.initial()
 	for _, c := range init.st.cons {
@@ -1202,28 +1306,98 @@ func analyseGoFunc(p *Program, fn *ssa.Function, name string, assertRoots []stri
 			hc.globals = append(hc.globals, c)
 		}
 	}
-	for _, prm := range fn.Params {
-		if isSliceType(prm.Type()) {
-			hc.anchors = append(hc.anchors, g.lenSym[prm.Name()])
+	if g.parent == nil {
+		for _, prm := range fn.Params {
+			if isSliceType(prm.Type()) {
+				hc.anchors = append(hc.anchors, g.lenSym[prm.Name()])
+			}
+		}
+	} else {
+		var rn []string
+		for r := range g.lenSym {
+			rn = append(rn, r)
+		}
+		sort.Strings(rn)
+		for _, r := range rn {
+			hc.anchors = append(hc.anchors, g.lenSym[r])
 		}
 	}
 	hc.liveAt = func(b int) map[string]bool { return g.live[b] }
+	if g.parent != nil {
+		// everything the caller knows stays live (and unchanged) across the callee
+		outer := map[string]bool{}
+		for k := range g.start.vals {
+			if !strings.HasPrefix(k, g.ctx) && !strings.HasPrefix(k, "cell:"+g.ctx) {
+				outer[k] = true
+			}
+		}
+		cache := map[int]map[string]bool{}
+		hc.liveAt = func(b int) map[string]bool {
+			if m, ok := cache[b]; ok {
+				return m
+			}
+			m := map[string]bool{}
+			for k := range g.live[b] {
+				m[k] = true
+			}
+			for k := range outer {
+				m[k] = true
+			}
+			cache[b] = m
+			return m
+		}
+	}
 	keyType := map[string]types.Type{}
 	for _, prm := range fn.Params {
-		keyType[vkey(prm)] = prm.Type()
+		keyType[g.k(prm)] = prm.Type()
 	}
 	allInstrs(fn, func(in ssa.Instruction) {
 		if v, ok := in.(ssa.Value); ok {
-			keyType[vkey(v)] = v.Type()
+			keyType[g.k(v)] = v.Type()
 			if al, isAl := v.(*ssa.Alloc); isAl {
 				if pt, isP := al.Type().(*types.Pointer); isP {
-					keyType["cell:"+al.Name()] = pt.Elem()
+					keyType[g.cellKey(al)] = pt.Elem()
 				}
 			}
 		}
 	})
 	hc.diffAnchors = true
 	hc.idPairs = true
+	// widening thresholds: constants that comparisons of this function use
+	{
+		seenT := map[string]bool{}
+		allInstrs(fn, func(in ssa.Instruction) {
+			bo, ok := in.(*ssa.BinOp)
+			if !ok {
+				return
+			}
+			switch bo.Op {
+			case token.LSS, token.LEQ, token.GTR, token.GEQ, token.EQL, token.NEQ:
+			default:
+				return
+			}
+			for _, o := range []ssa.Value{bo.X, bo.Y} {
+				k, isK := o.(*ssa.Const)
+				if !isK || k.Value == nil || k.Value.Kind() != constant.Int {
+					continue
+				}
+				if _, _, isI := isIntType(k.Type()); !isI {
+					continue
+				}
+				v := g.val(newAbs(), k)
+				if !v.isConst() || v.k.Sign() <= 0 {
+					continue
+				}
+				for _, q := range []Q{v.k.Sub(qi(1)), v.k, v.k.Add(qi(1))} {
+					if !seenT[q.String()] {
+						seenT[q.String()] = true
+						hc.thresholds = append(hc.thresholds, q)
+					}
+				}
+			}
+		})
+		sort.Slice(hc.thresholds, func(i, j int) bool { return hc.thresholds[i].Cmp(hc.thresholds[j]) < 0 })
+	}
 	hc.onPhi = func(key string, s Sym) {
 		// integer SSA values of signed type may be negative
 		g.tab.signed[s] = true
@@ -1253,5 +1427,350 @@ func analyseGoFunc(p *Program, fn *ssa.Function, name string, assertRoots []stri
 		}()
 		res = runBnd(g, hc, coll, defaultIncs)
 	}()
-	return res, g, err
+	return res, err
+}
+
+// ---------------------------------------------------------------------------
+// Inlining of module-local helpers. A statically resolved, non-recursive callee
+// of this module without defer/go is analysed in place: a nested fixpoint is run
+// on its SSA from the state at the call (parameters bound to the arguments), and
+// the states reaching its return statements, with the results bound to the call
+// value, are the outcome of the call. Obligations inside the callee (accesses,
+// writes, hooks) are recorded like those of the caller.
+
+const inlineMaxBlocks = 80
+
+func (g *goProg) onStack(f *ssa.Function) bool {
+	for x := g; x != nil; x = x.parent {
+		if x.fn == f {
+			return true
+		}
+	}
+	return false
+}
+
+func inlinable(f *ssa.Function) bool {
+	if !inModule(f) || len(f.Blocks) > inlineMaxBlocks || len(f.FreeVars) > 0 {
+		return false
+	}
+	ok := true
+	allInstrs(f, func(in ssa.Instruction) {
+		switch in.(type) {
+		case *ssa.Defer, *ssa.Go, *ssa.Select, *ssa.Panic:
+			ok = false
+		}
+	})
+	return ok
+}
+
+func (g *goProg) inlineCall(a *AbsState, x *ssa.Call, f *ssa.Function, check bool) ([]*AbsState, bool) {
+	if f == nil || g.hooks.noInline || x.Call.IsInvoke() || g.depth >= 2 || !inlinable(f) || g.onStack(f) {
+		return nil, false
+	}
+	if len(x.Call.Args) != len(f.Params) {
+		return nil, false
+	}
+	sub := &goProg{fn: f, prog: g.prog, tab: g.tab, hooks: g.hooks, recovers: g.recovers, assertRoots: g.assertRoots,
+		lenSym: g.lenSym, capSym: g.capSym, ordinal: map[ssa.Instruction]int{}, two63: g.two63, two64: g.two64,
+		name: g.name + "/" + f.Name(), parent: g, callSite: x, depth: g.depth + 1, paramRoot: map[string]string{},
+		ctx: fmt.Sprintf("%si%d.%s/", g.ctx, g.ordinal[x], f.Name())}
+	if check {
+		sub.coll = g.coll
+	} else {
+		sub.coll = newCollector()
+	}
+	sub.hooks.onEdge = nil
+	from := a.from
+	resKey := g.k(x)
+	tup, isTup := x.Type().(*types.Tuple)
+	sub.hooks.onReturn = func(sg *goProg, st *AbsState, r *ssa.Return) {
+		outs := []*AbsState{st.clone()}
+		for i, res := range r.Results {
+			key := resKey
+			if isTup && tup.Len() > 1 {
+				key = resKey + fmt.Sprintf("#%d", i)
+			}
+			var next []*AbsState
+			for _, o := range outs {
+				switch {
+				case isSliceType(res.Type()):
+					s := sg.sliceOf(o, res)
+					o.vals[key+".len"], o.vals[key+".cap"], o.vals[key+".off"] = s.len, s.cap, s.off
+					next = append(next, o)
+				default:
+					if _, _, isI := isIntType(res.Type()); isI {
+						o.vals[key] = sg.val(o, res)
+						next = append(next, o)
+					} else if bt, isB := res.Type().Underlying().(*types.Basic); isB && bt.Kind() == types.Bool {
+						next = append(next, sg.boolStates(o, res, key, r.Block())...)
+					} else {
+						next = append(next, o)
+					}
+				}
+			}
+			outs = next
+		}
+		for _, o := range outs {
+			// drop the callee's local values
+			for k := range o.vals {
+				if strings.HasPrefix(k, sub.ctx) || strings.HasPrefix(k, "cell:"+sub.ctx) {
+					delete(o.vals, k)
+				}
+			}
+			for k := range o.meta {
+				if strings.HasPrefix(k, sub.ctx) || strings.HasPrefix(k, "bphi:"+sub.ctx) {
+					delete(o.meta, k)
+				}
+			}
+			o.from = from
+			sub.rets = append(sub.rets, o)
+		}
+	}
+	// bind parameters
+	st := a.clone()
+	for i, prm := range f.Params {
+		arg := x.Call.Args[i]
+		pk := sub.k(prm)
+		switch {
+		case isSliceType(prm.Type()):
+			s := g.sliceOf(st, arg)
+			st.vals[pk+".len"], st.vals[pk+".cap"], st.vals[pk+".off"] = s.len, s.cap, s.off
+			sub.paramRoot[prm.Name()] = s.root
+			if st.meta[g.k(arg)+".open"] == "1" {
+				st.meta[pk+".open"] = "1"
+			}
+		default:
+			if _, _, isI := isIntType(prm.Type()); isI {
+				st.vals[pk] = g.val(st, arg)
+			}
+		}
+	}
+	sub.start = st
+	sub.prepare()
+	sub.recovers = g.recovers
+	res, err := sub.run()
+	if err != nil || res == nil || res.trouble != "" {
+		if check {
+			g.coll.check("unanalysed", g.siteKey(x, "callee-"+f.Name()), g.prog.InstrPos(x), "the helper "+f.Name()+" is analysed together with its caller", false, func() string {
+				if err != nil {
+					return err.Error()
+				}
+				if res != nil {
+					return res.trouble
+				}
+				return "nested analysis failed"
+			})
+		}
+		return nil, false
+	}
+	var feas []*AbsState
+	for _, o := range sub.rets {
+		if o.st.feasible() {
+			feas = append(feas, o)
+		}
+	}
+	// keep the number of outcomes bounded: merge beyond the disjunct limit is left to the caller's joins
+	return feas, true
+}
+
+// boolStates: the states in which the boolean value v is true / false, with the
+// truth value recorded under key (1 / 0). Unknown shapes leave the key unset.
+func (g *goProg) boolStates(a *AbsState, v ssa.Value, key string, blk *ssa.BasicBlock) []*AbsState {
+	switch c := v.(type) {
+	case *ssa.Const:
+		if c.Value != nil && c.Value.Kind() == constant.Bool {
+			if constant.BoolVal(c.Value) {
+				a.vals[key] = linI(1)
+			} else {
+				a.vals[key] = linI(0)
+			}
+		}
+		return []*AbsState{a}
+	case *ssa.UnOp:
+		if c.Op == token.NOT {
+			outs := g.boolStates(a, c.X, key, blk)
+			for _, o := range outs {
+				if b, has := o.vals[key]; has && b.isConst() {
+					if b.k.Sign() != 0 {
+						o.vals[key] = linI(0)
+					} else {
+						o.vals[key] = linI(1)
+					}
+				}
+			}
+			return outs
+		}
+	case *ssa.BinOp:
+		switch c.Op {
+		case token.LSS, token.LEQ, token.GTR, token.GEQ, token.EQL, token.NEQ:
+			if _, _, isI := isIntType(c.X.Type()); isI {
+				t, f := a.clone(), a
+				var outs []*AbsState
+				if g.condRefine(t, c, true, nil) && t.st.feasible() {
+					t.vals[key] = linI(1)
+					outs = append(outs, t)
+				}
+				if g.condRefine(f, c, false, nil) && f.st.feasible() {
+					f.vals[key] = linI(0)
+					outs = append(outs, f)
+				}
+				return outs
+			}
+		}
+	case *ssa.Phi:
+		idx := -1
+		if c.Block() == blk && a.from >= 0 {
+			for i, p := range blk.Preds {
+				if p.Index == a.from {
+					idx = i
+				}
+			}
+		}
+		if pick, ok := a.meta["bphi:"+g.ctx+c.Name()]; ok && idx < 0 {
+			fmt.Sscanf(pick, "%d", &idx)
+		}
+		if idx >= 0 && idx < len(c.Edges) {
+			return g.boolStates(a, c.Edges[idx], key, nil)
+		}
+	case *ssa.Call, *ssa.Extract:
+		if b, has := a.vals[g.k(v)]; has {
+			a.vals[key] = b
+		}
+	}
+	return []*AbsState{a}
+}
+
+// ---------------------------------------------------------------------------
+// Field cells: a struct field reached from a pointer of this function (receiver,
+// parameter, or a pointer value) by a chain of field selections is tracked like
+// a local variable: key "fld:<base>:<Type.F1.F2>". A store through another base
+// to the same field path, and any call that is not known to be free of writes,
+// forgets it.
+
+func (g *goProg) fieldCell(addr ssa.Value) string {
+	fa, ok := addr.(*ssa.FieldAddr)
+	if !ok {
+		return ""
+	}
+	path := ""
+	var base ssa.Value = fa
+	for {
+		x, isFA := base.(*ssa.FieldAddr)
+		if !isFA {
+			break
+		}
+		fn := fieldName(x.X.Type(), x.Field)
+		if path == "" {
+			path = fn
+		} else {
+			path = fn + "." + path
+		}
+		base = x.X
+	}
+	// base pointer: a parameter, a spilled parameter (load of a cell that only holds it), or another value
+	bk := ""
+	switch b := base.(type) {
+	case *ssa.Parameter:
+		bk = g.ctx + "p:" + b.Name()
+	case *ssa.UnOp:
+		if al, isAl := b.X.(*ssa.Alloc); isAl && b.Op == token.MUL {
+			if sts := storesTo(al); len(sts) == 1 {
+				if prm, isP := sts[0].Val.(*ssa.Parameter); isP {
+					bk = g.ctx + "p:" + prm.Name()
+				}
+			}
+		}
+	}
+	if bk == "" {
+		bk = g.k(base)
+	}
+	return "fld:" + bk + ":" + typeName(base.Type()) + "." + path
+}
+
+// killField forgets every cell of the same field path held under another base (possible alias).
+func (g *goProg) killField(a *AbsState, addr ssa.Value, keep string) {
+	path := ""
+	if keep != "" {
+		path = keep[strings.LastIndex(keep, ":")+1:]
+	} else if fa, ok := addr.(*ssa.FieldAddr); ok {
+		path = typeName(fa.X.Type()) + "." + fieldName(fa.X.Type(), fa.Field)
+	}
+	if path == "" {
+		g.killAllFields(a)
+		return
+	}
+	fieldOnly := path[strings.Index(path, ".")+1:]
+	for k := range a.vals {
+		if !strings.HasPrefix(k, "fld:") || strings.HasPrefix(k, "fld:orig:") {
+			continue
+		}
+		base := strings.TrimSuffix(strings.TrimSuffix(strings.TrimSuffix(k, ".len"), ".cap"), ".off")
+		if keep != "" && base == keep {
+			continue
+		}
+		kp := base[strings.LastIndex(base, ":")+1:]
+		// same last field name: may be the same location through another route
+		if kp == path || strings.HasSuffix(kp, "."+fieldOnly) || strings.HasSuffix(path, "."+kp[strings.Index(kp, ".")+1:]) {
+			delete(a.vals, k)
+		}
+	}
+}
+
+func (g *goProg) killAllFields(a *AbsState) {
+	for k := range a.vals {
+		if strings.HasPrefix(k, "fld:") {
+			delete(a.vals, k)
+		}
+	}
+}
+
+var pureMemo = map[*ssa.Function]int{}
+
+// pureCallee: a module function without stores, sends, go/defer and with only
+// pure callees (getters and small arithmetic helpers), or a known side-effect
+// free library function. Unknown callees are not pure.
+func pureCallee(f *ssa.Function) bool {
+	if f == nil {
+		return false
+	}
+	if f.Pkg != nil {
+		switch f.Pkg.Pkg.Path() {
+		case "math/bits", "encoding/binary":
+			return !strings.HasPrefix(f.Name(), "Put")
+		}
+	}
+	if !inModule(f) {
+		return false
+	}
+	if v, ok := pureMemo[f]; ok {
+		return v == 1
+	}
+	pureMemo[f] = 2 // in progress: recursion is not pure
+	ok := true
+	allInstrs(f, func(in ssa.Instruction) {
+		switch x := in.(type) {
+		case *ssa.Store:
+			if _, isAl := x.Addr.(*ssa.Alloc); !isAl {
+				ok = false
+			}
+		case *ssa.Send, *ssa.Go, *ssa.Defer, *ssa.MapUpdate, *ssa.Select, *ssa.Panic:
+			ok = false
+		case *ssa.Call:
+			if _, isB := x.Call.Value.(*ssa.Builtin); isB {
+				if b := x.Call.Value.(*ssa.Builtin); b.Name() == "copy" || b.Name() == "append" || b.Name() == "clear" || b.Name() == "delete" {
+					ok = false
+				}
+				return
+			}
+			if !pureCallee(staticCallee(x)) {
+				ok = false
+			}
+		}
+	})
+	if ok {
+		pureMemo[f] = 1
+	} else {
+		pureMemo[f] = 0
+	}
+	return ok
 }
